@@ -206,9 +206,9 @@ def _check_terminals(out, built, world, tests, spec, hist=()):
                         if d is None or d["bytes"] != b"".join(chunks):
                             out.violate("detail-changed", fl, f"{term['name']}: detail {name!r} arrived as {d}, sent {b''.join(chunks)!r}")
                             break
-                elif data.get("err") is not None and pl.KIND[e.method] == pl.KIND[t["method"]]:
-                    # (an unexpected success degraded to a failure carries a synthetic failure of
-                    # its own; only same-outcome conversions must carry the detail text)
+                elif data.get("err") is not None and (pl.KIND[e.method] == pl.KIND[t["method"]] or t["method"] == "addUnexpectedSuccess"):
+                    # (also for an unexpected success degraded to a failure: "details become a synthetic
+                    # exception ... whose text contains the detail text", "nothing is dropped")
                     for tx in texts:
                         if tx not in data["err"]["text"]:
                             out.violate("degradation-wrong", fl + ":detail-text-missing-from-exception", f"{term['name']}: {tx!r} not in {data['err']['text']!r}")
